@@ -41,7 +41,8 @@ def octo_gcode(cmd):
     if not match:
         return None, None
     sub = match.group("subcode")
-    return (match.group("codeGM") or match.group("codeT")), (int(sub) if sub else None)
+    # (OctoPrint hands the sub-code over as the string it matched)
+    return (match.group("codeGM") or match.group("codeT")), (sub if sub else None)
 
 
 def nat(value):
@@ -186,6 +187,22 @@ class FilterRig(object):
         region = self.make_region(spec)
         self.state.addRegion(region)
         return {"ev": "addr", "reg": alpha_region(region), "st": alpha_state(self.state)}
+
+    def _regs_event(self):
+        return {"ev": "regs", "rl": [alpha_region(r) for r in self.state.excludedRegions],
+                "st": alpha_state(self.state)}
+
+    def update_region(self, spec):
+        """Replace the region with the same id (as the API does when shrinking is allowed)."""
+        try:
+            self.state.replaceRegion(self.make_region(spec), False)
+        except ValueError:
+            pass
+        return self._regs_event()
+
+    def delete_region(self, rid):
+        self.state.deleteRegion(rid)
+        return self._regs_event()
 
     # -- commands ----------------------------------------------------------------------------
     def classify_at(self, command, parameters):
@@ -358,6 +375,11 @@ class PluginRig(object):
         return payloads
 
     def set_setting(self, key, value):
+        if key == "g90InfluencesExtruder":
+            # OctoPrint's own (global) feature setting, read by the plugin on SettingsUpdated
+            from octoprint.settings import settings
+            settings().setBoolean(["feature", "g90InfluencesExtruder"], bool(value))
+            return
         self.plugin._settings.set([key], value)
 
     def event(self, name, payload=None):
